@@ -157,8 +157,8 @@ READER_OVERRIDES = {
     # the label handled in the loop body is never None: tokens come from require_next_token
     "_parse_taxlabels_statement": dict(loops={1: " and not isnone(token)"}),
     "_parse_tree_statement": dict(ensures_extra=" and {t}.g_pos > old({t}.g_pos)".format(t=T)),
-    # delegates to NewickReader._parse_tree_statement (recursive descent over the same tokenizer): ASSUMED monotone
-    "_build_tree_from_newick_tree_string": dict(assumed=True),
+    # _build_tree_from_newick_tree_string delegates to NewickReader._parse_tree_statement (recursive descent over the same
+    # tokenizer): verified against that function's contract, which contracts/C20newick.py proves
 }
 
 ALLOWED = ("NexusReaderError", "UnexpectedEndOfStreamError", "UnterminatedQuoteError", "NotNexusFileError", "IncompleteBlockError",
@@ -199,8 +199,10 @@ def reader_contracts():
 
 
 def build_suite():
+    from contracts import C20newick as NWK
+    callee = [c for c in NWK.newick_contracts() if c.name == "NewickReader._parse_tree_statement"]
     cs = tok_contracts() + reader_contracts()
-    s = Suite(SCHEMA, [NR, NP, TK], cs, executor_cls=ReaderExecutor)
+    s = Suite(NWK.SCHEMA, [NR, NP, TK, NWK.NW], cs + callee, executor_cls=ReaderExecutor)
     return s, cs
 
 
@@ -213,6 +215,8 @@ def t1(ctx):
     from dpvc import replay_c20
     for c in cs:
         verify_contract(ctx, suite, c, sentinels=False, replay=replay_c20.replay_reader)
+    from contracts import C20newick
+    C20newick.t1(ctx)
     validate_tokenizer_assumptions(ctx)
     raise_family_scan(ctx)
 
